@@ -928,6 +928,10 @@ class CodeGen:
             bubble += arg_bubble
 
         label = self.label_for_func(ConcreteSignature(name, tuple(concrete_params)))
+        if label == stdlib.stdlib_funcs[ConcreteSignature(ast.Ident('write'), (DataType.INT,))]:
+            # write_int builds its digits below its frame: up to 3 words of
+            # buffer on top of the RA, of which the caller pushed only 2.
+            self.checkpoints.update(self.stack.static_size + 2 * self.word_size)
         yield asm.Add(self.fp, asm.State(self.fp), asm.IntLiteral(-offset))
         yield from self.goto(label)
         yield asm.Label(end_call)
